@@ -166,7 +166,7 @@ def advance (d : Drv) (c : Nat) (a : ApiClient) (op : ApiOp) : Act × ApiClient 
       match a.pc with
       | 5 => match (if ok then ((x.cache a.pool 0).table).get branch else none) with
         | none => (.finish "notfound", a)
-        | some _ => (.start (.bcommit a.pool 0 branch [] objs) 6, a)
+        | some _ => (.start (.bcommit a.pool 0 branch [] objs.eraseDups) 6, a)   -- Branch.Delete: uniqueIDs(ids)
       | _ => match res with
         | some (.committed _) => (.finish s!"ok commit {lbl}", a)
         | r => (.finishRes (r.getD .io), a)
